@@ -40,7 +40,7 @@ func hostileOpts(av map[string]string, onEx, onCl func(string)) *synth.Opts {
 func c18Gen(t *rapid.T, r *h.Rec) c18Case {
 	av, onEx, onCl := avoidOpts(r)
 	if rapid.IntRange(0, 4).Draw(t, "profile") == 0 {
-		return c18Case{SQL: true, Spec: synth.GenSQL(t, &synth.SQLOpts{Avoid: av, OnExclude: onEx, OnClass: onCl, Directives: true})}
+		return c18Case{SQL: true, Spec: synth.GenSQL(t, &synth.SQLOpts{Avoid: av, OnExclude: onEx, OnClass: onCl, Directives: true, SelfFK: true})}
 	}
 	o := hostileOpts(av, onEx, onCl)
 	o.Hostile = rapid.IntRange(0, 2).Draw(t, "hostile") != 0
